@@ -367,6 +367,12 @@ func leavesOf(v ssa.Value) []phiLeaf {
 			return
 		}
 		seen[ph] = true
+		// a merge all of whose uses lie where only one incoming edge is feasible
+		// (a result paired with an ok flag that is tested before every use) is that edge's value
+		if rv, ok := resolvePhiByUses(ph); ok {
+			walk(rv, from, at)
+			return
+		}
 		for i, e := range ph.Edges {
 			walk(e, ph.Block().Preds[i], ph.Block())
 		}
@@ -704,6 +710,112 @@ func pathOfAddr(addr ssa.Value) (accessPath, bool) {
 type formAlt struct {
 	form     poly
 	from, at *ssa.BasicBlock // the edge the alternative arrives on (nil: unconditional)
+	// edges lists, outermost first, the merge edges that were chosen to obtain this
+	// alternative (SSA merges only; from/at is the innermost of them)
+	edges [][2]*ssa.BasicBlock
+}
+
+// phiAlts expands the SSA merges v depends on (through arithmetic, conversions
+// and forwarded loads) into one alternative per combination of incoming
+// edges: a variable assigned on several branches and stored once after the
+// join is described branch by branch.  Bounded: at most 3 nested merges and
+// 32 alternatives; nil when the bounds are exceeded.
+func (fe *formEval) phiAlts(v ssa.Value) []formAlt {
+	type actx struct {
+		over  map[ssa.Value]ssa.Value
+		edges [][2]*ssa.BasicBlock
+	}
+	phisIn := func(v ssa.Value, over map[ssa.Value]ssa.Value) []*ssa.Phi {
+		var out []*ssa.Phi
+		seen := map[ssa.Value]bool{}
+		var walk func(v ssa.Value)
+		walk = func(v ssa.Value) {
+			if v == nil || seen[v] {
+				return
+			}
+			seen[v] = true
+			if o, ok := over[v]; ok {
+				walk(o)
+				return
+			}
+			switch x := v.(type) {
+			case *ssa.UnOp:
+				if x.Op == token.MUL {
+					if sv, ok := forwardLoad(x); ok {
+						walk(sv)
+					}
+					return
+				}
+				walk(x.X)
+			case *ssa.BinOp:
+				walk(x.X)
+				walk(x.Y)
+			case *ssa.Convert:
+				walk(x.X)
+			case *ssa.ChangeType:
+				walk(x.X)
+			case *ssa.Phi:
+				out = append(out, x)
+			}
+		}
+		walk(v)
+		return out
+	}
+	var results []actx
+	fail := false
+	var expand func(ctx actx, depth int)
+	expand = func(ctx actx, depth int) {
+		if fail {
+			return
+		}
+		phis := phisIn(v, ctx.over)
+		if len(phis) == 0 {
+			results = append(results, ctx)
+			if len(results) > 32 {
+				fail = true
+			}
+			return
+		}
+		if len(phis) > 1 || depth >= 3 {
+			fail = true
+			return
+		}
+		root := phis[0]
+		for i, e := range root.Edges {
+			over := map[ssa.Value]ssa.Value{}
+			for k, val := range ctx.over {
+				over[k] = val
+			}
+			over[root] = e
+			edges := append(append([][2]*ssa.BasicBlock{}, ctx.edges...), [2]*ssa.BasicBlock{root.Block().Preds[i], root.Block()})
+			if e == ssa.Value(root) {
+				continue
+			}
+			expand(actx{over, edges}, depth+1)
+		}
+	}
+	expand(actx{map[ssa.Value]ssa.Value{}, nil}, 0)
+	if fail {
+		return nil
+	}
+	var out []formAlt
+	for _, ctx := range results {
+		sub := newFormEval(fe.f)
+		sub.ord = fe.ord
+		over := ctx.over
+		sub.override = func(x ssa.Value) (poly, bool) {
+			if o, ok := over[x]; ok {
+				return sub.eval(o), true
+			}
+			return nil, false
+		}
+		fa := formAlt{form: sub.eval(v), edges: ctx.edges}
+		if n := len(ctx.edges); n > 0 {
+			fa.from, fa.at = ctx.edges[n-1][0], ctx.edges[n-1][1]
+		}
+		out = append(out, fa)
+	}
+	return out
 }
 
 // storeBefore searches backwards from (b, idx) along unique predecessors for a
@@ -773,6 +885,7 @@ func memoryMerge(ld *ssa.UnOp) []phiLeaf {
 // returns one form per incoming path, otherwise the single form.
 func (fe *formEval) evalAlts(v ssa.Value) []formAlt {
 	var merges []*ssa.UnOp
+	var phis []*ssa.Phi
 	seen := map[ssa.Value]bool{}
 	var walk func(v ssa.Value)
 	walk = func(v ssa.Value) {
@@ -798,9 +911,16 @@ func (fe *formEval) evalAlts(v ssa.Value) []formAlt {
 			walk(x.X)
 		case *ssa.ChangeType:
 			walk(x.X)
+		case *ssa.Phi:
+			phis = append(phis, x)
 		}
 	}
 	walk(v)
+	if len(merges) == 0 && len(phis) == 1 {
+		if out := fe.phiAlts(v); len(out) > 1 {
+			return out
+		}
+	}
 	if len(merges) != 1 {
 		return []formAlt{{form: fe.eval(v)}}
 	}
